@@ -367,15 +367,50 @@ Definition d_args (r : raw) : option args :=
 Definition e_summary (s : list (Q * nat * Q)) : raw :=
   RL [e_qs (map (fun p => fst (fst p)) s); RL (map (fun p => e_nat (snd (fst p))) s); e_qs (map snd s)].
 
+(* ------------------------------------------------------------------------------------ *)
+(* infinite forecasts / observations / weights                                            *)
+(* ------------------------------------------------------------------------------------ *)
+(* For the code an infinite forecast is simply the largest / smallest explanatory value (np.lexsort, np.unique and the
+   comparisons of PAV order +-inf like any other float; only NaN pairs are dropped).  The fit depends on the forecasts only
+   through their ORDER (coq/proofs/C15_order.v: the tidy step, the fitted values and the counts commute with every strictly
+   increasing relabelling of the forecasts), so the rational model is run on a relabelled problem: +inf |-> m, -inf |-> -m
+   with m beyond every finite forecast, and the labels are mapped back in the summary.  Observations are treated the same
+   way; this is faithful for the solvers max / min (they commute with increasing maps) and for quantile blocks whose
+   interpolation never reads an infinite order statistic -- the harness sends infinite observations only for those.  An
+   infinite weight is replaced by 1: only sent for solvers that ignore the weights. *)
+Definition qbound (l : list xv) : Q :=
+  fold_right (fun v m => match v with XFin q => let a := Qabs q + 1 in if Qle_bool a m then m else a | _ => m end) 1 l.
+Definition emb (m : Q) (v : xv) : xv := match v with XInf true => XFin m | XInf false => XFin (- m) | _ => v end.
+Definition unemb (m : Q) (q : Q) : xv :=
+  if Qeq_bool q m then XInf true else if Qeq_bool q (- m) then XInf false else XFin q.
+Definition emb_w (v : xv) : xv := match v with XInf true => XFin 1 | _ => v end.
+Definition has_inf (l : list xv) : bool := existsb xisinf l.
+Definition embed_args (mf mo : Q) (a : args) : args :=
+  mkArgs (a_fshape a) (a_oshape a) (a_wshape a) (map (emb mf) (a_fcst a)) (map (emb mo) (a_obs a))
+         (match a_w a with Some w => Some (map emb_w w) | None => None end)
+         (a_functional a) (a_solver a) (a_q a) (a_boot a) (a_conf a) (a_intobs a).
+(* fitted values are mapped back only when an observation was infinite (a finite fit may equal the bound by accident) *)
+Definition unemb_o (oinf : bool) (mo : Q) (v : Q) : xv := if oinf then unemb mo v else XFin v.
+Definition e_summary_x (mf : Q) (oinf : bool) (mo : Q) (s : list (Q * nat * Q)) : raw :=
+  RL [e_xvs (map (fun p => unemb mf (fst (fst p))) s); RL (map (fun p => e_nat (snd (fst p))) s);
+      e_xvs (map (fun p => unemb_o oinf mo (snd p)) s)].
+Definition xv_bind (f : Q -> xv) (v : xv) : xv := match v with XFin q => f q | _ => XNaN end.
+
 Definition entries_C15 : list entry := [
   (* args -> err | ( (unique fcst) (counts) (regression values) ) *)
   ("c15_fit", fun r => orun (
-     let? a := d_args r in Some (e_result (fun x => e_summary (fit_summary x)) (isotonic_fit_m a))));
-  (* ( args (x ...) ) -> regression_func at the given points *)
+     let? a := d_args r in
+     let mf := qbound (a_fcst a) in let mo := qbound (a_obs a) in
+     Some (e_result (fun x => e_summary_x mf (has_inf (a_obs a)) mo (fit_summary x)) (isotonic_fit_m (embed_args mf mo a)))));
+  (* ( args (x ...) ) -> regression_func at the given points (finite, -inf or +inf; the harness does not ask for finite
+     points between a finite and an infinite forecast: interpolation is not invariant under relabelling) *)
   ("c15_func", fun r => orun (
      match r with RL [a; xs] =>
-       let? a := d_args a in let? xs := d_list d_q xs in
-       Some (e_result (fun x => e_xvs (map (interp (map tf (f_tidy x)) (f_vals x)) xs)) (isotonic_fit_m a))
+       let? a := d_args a in let? xs := d_xvs xs in
+       let mf := qbound (a_fcst a ++ xs) in let mo := qbound (a_obs a) in
+       Some (e_result (fun x => e_xvs (map (fun v => xv_bind (unemb_o (has_inf (a_obs a)) mo)
+                                                      (xv_bind (interp (map tf (f_tidy x)) (f_vals x)) (emb mf v))) xs))
+                      (isotonic_fit_m (embed_args mf mo a)))
      | _ => None end));
   (* ( args ((i ...) ...) min_non_nan ) -> ( (rows) (lower at unique) (upper at unique) ) *)
   ("c15_boot", fun r => orun (
@@ -400,8 +435,9 @@ Definition entries_C15 : list entry := [
   ("c15_maxmin", fun r => orun (
      match r with RL [f; o; w] =>
        let? f := d_xvs f in let? o := d_xvs o in let? w := d_opt d_xvs w in
-       let t := tidy f o w in
-       Some (RL [e_qs (map (fun p => fst (fst p)) (pool t)); e_qs (maxmin_fit t);
+       let mf := qbound f in
+       let t := tidy (map (emb mf) f) o w in
+       Some (RL [e_xvs (map (fun p => unemb mf (fst (fst p))) (pool t)); e_qs (maxmin_fit t);
                  e_qs (map snd (uniq (map tf t) (maxmin_items (map titem t))))])
      | _ => None end));
   (* ( ((row) ...) quant ) -> _nanquantile ;  ( ((row) ...) conf min_non_nan ) -> _confidence_band *)
